@@ -358,3 +358,44 @@ Definition single_topic_partition (a : api) (v : N) (w : wval) : Prop :=
 
 Definition well_formed (a : api) (v : N) (w : wval) : Prop :=
   wt (resp_ty a v) w /\ single_topic_partition a v w.
+
+(* ---- Conn.inflight (conn.go enter / leave / concurrency) ----
+   doRequest does c.enter(); its error exit does c.leave(); waitResponse does c.leave() at the
+   single exit of its loop.  The desynchronisation detector of waitResponse ("a foreign
+   correlation id while concurrency() = 1 is io.ErrNoProgress") reads the counter: with a
+   foreign id at the head of the stream and concurrency() <> 1 the loop unlocks and starts
+   over, waiting for another goroutine to consume the frame — when there is none, forever
+   (Peek is served from the buffer, deadlines do not fire).  [conn_do_i] threads the counter
+   through one call; [Spins] = the call never returns. *)
+Inductive outcome := Returns (r : result) | Spins.
+
+Definition foreign_head (id : Z) (s : list N) : bool :=
+  negb (length s <? 8)%nat && negb (get_bes 4 (firstn 4 (skipn 4 s)) =? id).
+
+Definition conn_do_i (sti : conn_state * Z) (o : op) (s : list N)
+  : (conn_state * Z) * outcome * list N :=
+  let '(st, n) := sti in
+  let n1 := n + 1 in                                   (* doRequest: c.enter() *)
+  if closed st then
+    let '(st', r, s') := conn_do st o s in
+    ((st', n1 - 1), Returns r, s')                      (* the write failed: c.leave() *)
+  else if foreign_head (wrap32 (corr st + 1)) s && negb (n1 =? 1) then
+    let off := match op_api o with AFetch => op_off o | _ => offset st end in
+    ((mkConn false (wrap32 (corr st + 1)) (cfg_topic st) off, n1), Spins, s)
+  else
+    let '(st', r, s') := conn_do st o s in
+    ((st', n1 - 1), Returns r, s').                     (* the exit of waitResponse's loop: c.leave() *)
+
+(* a run stops at the first call that never returns *)
+Fixpoint conn_run_i (sti : conn_state * Z) (ops : list op) (s : list N) {struct ops}
+  : (conn_state * Z) * list outcome * list N :=
+  match ops with
+  | [] => (sti, [], s)
+  | o :: r =>
+      match conn_do_i sti o s with
+      | (sti1, Spins, s1) => (sti1, [Spins], s1)
+      | (sti1, out, s1) =>
+          let '(sti2, outs, s2) := conn_run_i sti1 r s1 in
+          (sti2, out :: outs, s2)
+      end
+  end.
